@@ -341,6 +341,10 @@ def _reaper_side(fi):
 
 
 def run(ctx):
+    from .sweep import r04_13 as _r04_13, r01_17 as _r01_17b
+    from ..report import Only as _OnlyS4
+    _r04_13(ctx)
+    _r01_17b(_OnlyS4(ctx, ('mark_as_worker_lost:',), floor=1, doc='the lost-worker failure is a record of a live WorkerLostError'), 'R04.14')
     from .c01 import r01_16 as _r01_16
     _r01_16(ctx)
     # whether a worker has exited is decided by waitpid alone (borrowed from C19)
